@@ -11,11 +11,16 @@ import json,sys
 n=sys.argv[1]
 m=json.load(open('/verif/seeded/%s/meta.json'%n))
 if m.get('obsolete_since'): sys.exit(0)
+import os
 ids=[]
 p=n.split('-')[0]
 ids.append(p)
 for c in (m.get('detected_by') or []):
     if c not in ids: ids.append(c)
+if os.environ.get('SWEEP_ONE'):
+    # one check per change: the property it was filed for if that check detects it, else its first detector
+    det=m.get('detected_by') or []
+    ids=[p] if (p in det or not det) else [det[0]]
 print(n,' '.join(ids))
 PY
 done | xargs -P "$PAR" -L 1 bash -c '/verif/tools/recheck_seeded.sh "$0" "$@" 2>&1 | grep -E "RESULT|updated|does not|FAILS" | sed "s/^/[$0] /" | cut -c1-260' 
